@@ -92,7 +92,7 @@ func genCase(t *rapid.T) aggh.XCase {
 }
 
 func TestC07(t *testing.T) {
-	ev.Rapid(t, rec, "histories", rec.Scale(6000, 400000), genCase, func(c aggh.XCase) *ev.Failure {
+	ev.Rapid(t, rec, "histories", rec.Scale(6000, 3000000), genCase, func(c aggh.XCase) *ev.Failure {
 		st := &aggh.XStats{}
 		f := aggh.RunX(c, st)
 		var cl []string
